@@ -21,13 +21,8 @@ def wf (c : Case) : Bool :=
   -- copies; a plain dict copy carries an unset field over as unset
   (c.op == .evolve || c.cur.all (·.2.isSome) || !c.copyNeedsAll)
 
-/-- K12a: `assoc` is given a name that is no field but resolves on the fields tuple (`count`, `index`, `__len__` …) -/
-def tupleName (c : Case) : Bool :=
-  c.op == .assoc && c.changes.any (fun kv => !c.base.run.attrs.any (·.name == kv.1) && resolvesOnTuple.contains kv.1)
-
 def known (c : Case) : List String :=
-  C01.known c.base ++ (if cacheMisplaced c.base.run && c.op == .evolve then ["K2"] else []) ++
-  (if tupleName c then ["K12a"] else [])
+  C01.known c.base ++ (if cacheMisplaced c.base.run && c.op == .evolve then ["K2"] else [])
 
 /-- the value evolve passes for an init field: the change, else the current value -/
 def passedFor (c : Case) (a : Attr) : Option Val :=
